@@ -411,6 +411,38 @@ def main(run):
             elif o.startswith("nack:"):
                 run.hist("handler_calls", "NACK")
     run.cov["disagreements"] = ndiff
+    # ------------------------------------------------------------ the same cases with block mode on
+    # COAP_BLOCK_USE_LIBCOAP (what coap-client runs with) puts lg_crcv / lg_xmit bookkeeping and an
+    # RTAG option around every request; the exchange layer must behave the same: same cases, same
+    # outputs as the plain run (which was compared with the model and judged above)
+    if not replay_only:
+        # (scripted peers that are not honest are left out: a response carrying the number of an
+        # internal lg_crcv state token is mapped back to the application's token in block mode;
+        # of the simulations only the client's steps and the datagram log are compared - the extra
+        # lg_crcv timers make the run end later)
+        sub = [c[0] for c in exc[:(5000 if quick else 100000)] if c[2]] + [c[0] for c in exe[::(5 if quick else 2)]]
+        ob, crb = vlib.run_lines_robust(drv, sub, env={"C07_BLOCK_MODE": "1"}, max_restarts=6)
+        base = dict(zip([c[0] for c in exc], ocx))
+        base.update(dict(zip([c[0] for c in exe], oc)))
+
+        def core(out):
+            f = out.split(" || ")
+            if len(f) < 4:
+                return out
+            lg = " ".join("/".join(e.split("/")[:4]) for e in f[2].split())   # without delivery times
+            return f[0] + " || " + lg
+        nb = 0
+        for l, o in zip(sub, ob):
+            if core(base.get(l, "")) != core(o):
+                nb += 1
+                if nb <= 2:
+                    V.violation("with COAP_BLOCK_USE_LIBCOAP the client/server behave differently on a case of this "
+                                "property: plain=%s block=%s" % (str(base.get(l))[:200], o[:200]),
+                                "correspondence: block mode on vs off\ncase: %s\nplain: %s\nblock: %s\n"
+                                % (l, base.get(l), o), "blockmode", no_input=True)
+        run.cov["block_mode_cases"] = len(sub)
+        run.cov["block_mode_differences"] = nb
+
     # ------------------------------------------------------------ sanitizer variant (thorough)
     if not quick and not replay_only:
         drv_asan = vlib.build_driver("h_exchange", ["h_exchange.c"], variant="asan", wraps=WRAPS)
